@@ -239,7 +239,8 @@ def run_one(ctx: Any, seed: int, tier: str, replay: Optional[dict] = None) -> di
             "size_limits": rng.fork("feat").chance(0.25),
             "encodings": ["utf-8", "utf-8", "utf-8", "utf-8", "utf-8-sig", "utf-16-le-bom"],
             "newlines": ["lf", "lf", "lf", "crlf"],
-            "kinds": KINDS + ["cte_multi"],
+            "kinds": KINDS + ["cte_multi", "rulecase", "rulecase"],
+            "bait": 0.2,
         })
         sc = gen_scenario(rng.fork("scenario"), world)
         pool = ctx.hashseeds(3)
